@@ -334,6 +334,8 @@ def adjacency_scenarios(ctx):
 
 
 def correspond(ctx):
+    from tools.harness import synonyms
+    synonyms.check(ctx, {"leaveWhitespace", "ignoreWhitespace", "setWhitespaceChars", "setDefaultWhitespaceChars", "parseWithTabs"}, 'whitespace')
     corr.ensure_driver()
     rng = ctx.rng
     import pyparsing as pp
